@@ -26,6 +26,11 @@ func withEnumeration(t *testing.T, id string, mon Monitors, gen func(*rapid.T) C
 			rec.Flush(false)
 			t.Fatalf("%s violated by an enumerated schedule", id)
 		}
+	} else if os.Getenv("VERIF_REPLAY") == "" {
+		if enumerateSmall(rec, mon) {
+			rec.Flush(false)
+			t.Fatalf("%s violated by an enumerated schedule", id)
+		}
 	}
 	RunWith(t, rec, gen, prop)
 }
